@@ -252,6 +252,10 @@ def main(argv=None):
               f"\n    case={short(pf['case'], 700)}")
     for line in lines:
         print(line)
+    if os.environ.get("QVERIF_DUMP"):
+        # development aid: every kept predicate failure / disagreement of this run as JSON
+        with open(os.environ["QVERIF_DUMP"], "w") as f:
+            json.dump({"pred_failures": ctx.pred_failures, "disagreements": ctx.disagreements}, f, default=str)
     return 1 if violations else 0
 
 
